@@ -202,6 +202,41 @@ func dischargeAll(frs []*FuncResult, dir string, timeoutS, par int, filter func(
 				}
 			}
 			if (out.result == "timeout" || out.result == "unknown") && !j.o.Cover {
+				// retry conjunct by conjunct (each with its own cone of relevant assumptions)
+				if cs := conjuncts(j.o.Cond); len(cs) > 1 && len(cs) <= 16 {
+					allOK := true
+					total := 0.0
+					backend := ""
+					for ci, c := range cs {
+						oc := *j.o
+						oc.Cond = c
+						sc := j.fr.Enc.script(&oc)
+						cto := to
+						if cto > 15 {
+							cto = 15
+						}
+						so := solveScript(sc, dir, fmt.Sprintf("%sc%d", base, ci), cto)
+						if so.result != "unsat" {
+							if ss, ok := splitSolve(sc, dir, fmt.Sprintf("%sc%d", base, ci), cto, j.fr.Enc.splitVars[:j.o.NSplit]); ok {
+								so = ss
+							}
+						}
+						total += so.secs
+						if so.result != "unsat" {
+							allOK = false
+							break
+						}
+						backend = so.backend
+					}
+					if allOK {
+						j.o.Result = "unsat"
+						j.o.Backend = backend + "+conj"
+						j.o.Secs += total
+						out.result = "unsat"
+					}
+				}
+			}
+			if (out.result == "timeout" || out.result == "unknown") && !j.o.Cover {
 				// model search on the quantifier-free relaxation (a candidate input only: believed only if the replay confirms it)
 				relaxed := relaxScript(script)
 				r2 := solveScript(relaxed, dir, base+"r", 5)
@@ -271,4 +306,92 @@ func splitSolve(script, dir, base string, timeoutS int, branchVars []string) (so
 		backend = o.backend
 	}
 	return solveOut{result: "unsat", backend: backend + "+split", secs: total}, true
+}
+
+// conjuncts splits a term of the form (and a b ...) into its (flattened) top-level conjuncts.
+func conjuncts(t string) []string {
+	t = strings.TrimSpace(t)
+	if strings.HasPrefix(t, "(forall (") && strings.HasSuffix(t, ")") {
+		// (forall B (=> G (and a b))) == (forall B (=> G a)) and (forall B (=> G b))
+		if parts := sexprArgs(t[1 : len(t)-1]); len(parts) == 3 {
+			binders, body := parts[1], parts[2]
+			if strings.HasPrefix(body, "(=> ") {
+				if bp := sexprArgs(body[1 : len(body)-1]); len(bp) == 3 {
+					if cs := conjuncts(bp[2]); len(cs) > 1 {
+						var out []string
+						for _, c := range cs {
+							out = append(out, fmt.Sprintf("(forall %s (=> %s %s))", binders, bp[1], c))
+						}
+						return out
+					}
+				}
+			} else if cs := conjuncts(body); len(cs) > 1 {
+				var out []string
+				for _, c := range cs {
+					out = append(out, fmt.Sprintf("(forall %s %s)", binders, c))
+				}
+				return out
+			}
+		}
+		return []string{t}
+	}
+	if !strings.HasPrefix(t, "(and ") || !strings.HasSuffix(t, ")") {
+		return []string{t}
+	}
+	body := t[5 : len(t)-1]
+	var out []string
+	depth, start := 0, 0
+	inBar := false
+	flush := func(end int) {
+		if x := strings.TrimSpace(body[start:end]); x != "" {
+			out = append(out, conjuncts(x)...)
+		}
+	}
+	for i := 0; i < len(body); i++ {
+		switch c := body[i]; {
+		case c == '|':
+			inBar = !inBar
+		case inBar:
+		case c == '(':
+			depth++
+		case c == ')':
+			depth--
+			if depth < 0 {
+				return []string{t} // not a single (and ...) term
+			}
+		case (c == ' ' || c == '\n') && depth == 0:
+			flush(i)
+			start = i + 1
+		}
+	}
+	flush(len(body))
+	return out
+}
+
+// sexprArgs splits the inside of one parenthesised term into its top-level elements.
+func sexprArgs(body string) []string {
+	var out []string
+	depth, start := 0, 0
+	inBar := false
+	flush := func(end int) {
+		if x := strings.TrimSpace(body[start:end]); x != "" {
+			out = append(out, x)
+		}
+	}
+	for i := 0; i < len(body); i++ {
+		switch c := body[i]; {
+		case c == '|':
+			inBar = !inBar
+		case inBar:
+		case c == '(':
+			depth++
+		case c == ')':
+			depth--
+		case (c == ' ' || c == '\n') && depth == 0:
+			flush(i)
+			start = i + 1
+		}
+	}
+	flush(len(body))
+	return out
 }
